@@ -40,6 +40,19 @@ def check(ctx):
     sp = sorted([n for n in g.nodes if n.kind == 'stmt' and isinstance(n.ast, ast.Assign) and norm(n.ast.targets[0]) == 'start_page'], key=lambda n: n.line)
     ok = len(sp) == 2 and norm(sp[0].ast.value).endswith('.start_page') and norm(sp[1].ast.value) == 'page_override' and fact_key('page_override is not None', True) in g.fact_keys_at(sp[1])
     ctx.inst('R1', f, 'override-aware-start-page', ok, 'start_page = target start page, replaced by page_override when given')
+    # the geometry of a target (start page, flash pages, page size, buffer pages) is what the bootloader reported: it is written when
+    # the info reply is parsed (Cloader) and in constructors only.  The flashing code writing it back - "so the summary shows the
+    # override" - makes the next image without an override start at the override page
+    GEO = ('start_page', 'flash_pages', 'page_size', 'buffer_pages')
+    writers = []
+    for path_ in (BL, CL, 'cflib/bootloader/boottypes.py'):
+        for fn_ in m.mod(path_).all_funcs():
+            if fn_.name == '__init__' or (path_ == CL and fn_.name in ('_update_info', 'request_info_update', '_update_mapping')):
+                continue
+            for x_ in ast.walk(fn_.node):
+                if isinstance(x_, ast.Attribute) and isinstance(x_.ctx, (ast.Store, ast.Del)) and x_.attr in GEO:
+                    writers.append('%s:%s line %d' % (path_.split('/')[-1], fn_.qualname, x_.lineno))
+    ctx.inst('R1', f, 'target-geometry-read-only', not writers, 'target geometry fields are written outside the info parsing: %s' % writers)
     refusal = [n for n in g.nodes if n.kind == 'if' and isinstance(n.ast.test, ast.Compare) and len(n.ast.test.ops) == 1 and
                ('flash_pages' in norm(n.ast.test) or (norm(n.ast.test.left) == 'len(image)' and norm(n.ast.test.comparators[0]).startswith('t_data.')))]
     ctx.need(len(refusal) == 1, '_internal_flash: size test not found')
@@ -207,7 +220,12 @@ def check(ctx):
     rs = [s for s in walk_own(fl[0]) if isinstance(s, ast.Assign) and norm(s.targets[0]) == count and not aug_form(s)]
     ctx.inst('R5', ub, 'count-bookkeeping', len(cnt) == 1 and aug_form(cnt[0])[1] is ast.Add and fold_in(ub, aug_form(cnt[0])[2]) == 1 and len(rs) == 1 and fold_in(ub, rs[0].value) == 0, 'count += 1 per byte, reset to 0 at each flush')
     sends = [c for c in walk_own(ub.node) if method_call(c, 'send_packet')]
-    ctx.inst('R5', ub, 'final-flush', len(sends) == 2 and any(isinstance(s, ast.Expr) and s.value is sends[-1] for s in ub.node.body), 'the last (partial) packet is sent after the loop')
+    gub = cfg_of(ub)
+    fin = gub.node_of(sends[-1]) if sends else None
+    on_all = fin is not None and ('n', fin.id) in (gub.dom().get(('n', gub.exit.id)) or ())
+    ctx.inst('R5', ub, 'final-flush', len(sends) == 2 and any(isinstance(s, ast.Expr) and s.value is sends[-1] for s in ub.node.body) and on_all,
+             'the last (partial) packet is sent after the loop, on every path through upload_buffer (no early exit: a "same data as last time" short cut leaves the '
+             'bootloader buffer of a restarted or different board unfilled)')
 
     # ---- R5 / R6: page loop ---------------------------------------------------------------
     loops = [n for n in g.nodes if n.kind == 'for' and any(x is ups[0][0] for x in g.loop_body_nodes(n))]
